@@ -892,14 +892,15 @@ func (r *Run) exchange(g *kit.Gor, ci, oi int, name string, op *Op) {
 	ctx := context.Background()
 	var cancel context.CancelFunc
 	if op.CancelNs != 0 {
-		ctx, cancel = context.WithCancel(ctx)
-		defer cancel()
 		if op.CancelNs < 0 {
+			ctx, cancel = context.WithCancel(ctx)
 			cancel()
 		} else {
-			tm := time.AfterFunc(time.Duration(op.CancelNs), cancel)
-			defer tm.Stop()
+			// a deadline rather than a timer calling cancel: the harness can then decide ties with
+			// origin latencies from the deadline itself (see ctxOver)
+			ctx, cancel = context.WithTimeout(ctx, time.Duration(op.CancelNs))
 		}
+		defer cancel()
 	}
 	req, err := http.NewRequestWithContext(ctx, method, BuildURL(res, op.Spelling), nil)
 	if err != nil {
